@@ -67,15 +67,30 @@ def flat (p : Bytes) : Bytes := p.map (fun c => if c == 47 then 95 else c)
 
 /-- value of the directory a command writes: `a.txt`, `sub/b.txt`, a symlink `link -> a.txt` and one entry
     `in/<flattened path>` per input file it read (so the set of entries follows the inputs) -/
-def dirVal (b : Bytes) (ins : List (Path × Val)) : Val :=
+def pad3 (n : Nat) : Bytes :=
+  [UInt8.ofNat (48 + n / 100 % 10), UInt8.ofNat (48 + n / 10 % 10), UInt8.ofNat (48 + n % 10)]
+
+/-- a directory output whose name ends in `bulk` additionally holds `bulkN` small files (a load that takes a while) -/
+def bulkN : Nat := 600
+
+def bulkEntries (p : Path) : List (Bytes × DirVal.Ent) :=
+  if (str "bulk").isSuffixOf p then
+    (List.range bulkN).map fun i => (str "./many/k" ++ pad3 i, DirVal.Ent.file (pad3 i ++ nl))
+  else []
+
+def dirVal (p : Path) (b : Bytes) (ins : List (Path × Val)) : Val :=
   let fixed : List (Bytes × DirVal.Ent) :=
-    [(str "./a.txt", .file b), (str "./link", .link (str "a.txt")), (str "./sub/b.txt", .file (b ++ str "+" ++ nl))]
+    [(str "./a.txt", .file b), (str "./empty.txt", .file []), (str "./link", .link (str "a.txt")),
+     (str "./sub/b.txt", .file (b ++ str "+" ++ nl))]
   let per := ins.map fun pc => (str "./in/" ++ flat pc.1, DirVal.Ent.file pc.2)
-  DirVal.encTree (DirVal.ofList (fixed ++ per))
+  DirVal.encTree (DirVal.ofList (fixed ++ per ++ bulkEntries p))
+
+/-- a file output whose name ends in `.empty` is a stamp: the command creates it empty -/
+def isStamp (p : Path) : Bool := (str ".empty").isSuffixOf p
 
 def body (salt : Bytes) (o : OutDef) (com : Bytes) (ins : List (Path × Val)) : Val :=
   let b := str "T " ++ salt ++ str " " ++ o.path ++ nl ++ com
-  if o.dir then dirVal b ins else b
+  if o.dir then dirVal o.path b ins else if isStamp o.path then [] else b
 
 def presentInputs (v : View) : List (Path × Val) :=
   v.inputs.filterMap fun pv => pv.2.map fun c => (pv.1, c)
